@@ -270,7 +270,12 @@ func verifyFunction(P *Program, db *SpecDB, ti *TypeInfo, fn *ssa.Function, c *C
 			e.unsupportedf("axiom %s: %v", ax.Name, err)
 			continue
 		}
-		e.emit("; axiom " + ax.Name)
+		if ax.RepVar != "" {
+			// the relevance filter judges a definition by what it is defined FROM (see irrelevantAxioms)
+			e.emit("; axiom " + ax.Name + " defines G!" + ax.RepVar)
+		} else {
+			e.emit("; axiom " + ax.Name)
+		}
 		lo := len(e.out)
 		e.assert(t)
 		e.axiomLines = append(e.axiomLines, axiomLine{lo: lo, hi: len(e.out), syms: ghostSymbols(t)})
